@@ -139,6 +139,7 @@ def dispatch (j : Json) : Except String Res := do
   | "hook" => hookOp j
   | "media" => mediaOp j
   | "render" => renderOp j
+  | "renderpair" => renderPairOp j
   | "styleexpr" => styleExprOp j
   | "problem" => problemOp j
   | "pubfuzz" => pubFuzzOp j
